@@ -43,6 +43,13 @@ fn sugar_pairs() -> Vec<(String, String)> {
         (wrap("    x := (1) + ((2))"), wrap("    x := 1 + 2")),
         (wrap("    x := ((1 + 2)) * (3)"), wrap("    x := (1 + 2) * 3")),
         (wrap("    x := add((1), (2))"), wrap("    x := add(1, 2)")),
+        (wrap("    x := add' 1, 2"), wrap("    x := add(1, 2)")),
+        (wrap("    x := (add)' 1, 2"), wrap("    x := add(1, 2)")),
+        (wrap("    x := (add)(1, 2)"), wrap("    x := add(1, 2)")),
+        (wrap("    x := inc' 1"), wrap("    x := inc(1)")),
+        (wrap("    x := add' 1, // the first\n        2"), wrap("    x := add(1, 2)")),
+        (wrap("    x := add(1, // the first\n        2)"), wrap("    x := add(1, 2)")),
+        (wrap("    x := add(\n        1,\n\n        2\n    )"), wrap("    x := add(1, 2)")),
     ]
 }
 fn search_sugar() -> Option<(String, String)> {
